@@ -187,24 +187,41 @@ class Program:
                 return b
         return None
 
-    def resolve(self, path, self_type=None):
+    def resolve(self, path, self_type=None, from_crate=None):
         """callee path string -> Body or None. self_type: base name of the receiver type if known."""
+        r = self._resolve(path, self_type, None)
+        if r is None:
+            # several candidates: two crates of the dump define the same `Type::method`. A path is printed relative to the crate that
+            # is being compiled: `othercrate::Type::method` names the other crate, a bare `Type::method` the calling crate itself.
+            sp = strip_generics(path.strip())
+            first = sp.split("::")[0].replace("_", "-")
+            crates = {getattr(b, "crate", None) for b in self.bodies.values()}
+            want = first if first in crates else from_crate
+            if want is not None:
+                r = self._resolve(path, self_type, want)
+        return r
+
+    def _resolve(self, path, self_type, crate):
         p = path.strip()
+        by_last = self.by_last if crate is None else {k: [b for b in v if getattr(b, "crate", None) == crate] for k, v in ((strip_generics(p).split("::")[-1].strip(), self.by_last.get(strip_generics(p).split("::")[-1].strip(), [])),)}
+        return self._resolve_in(p, self_type, by_last)
+
+    def _resolve_in(self, p, self_type, by_last_map):
         m = re.match(r"^<(.*) as (.*)>::(\w+)(?:::<.*>)?$", p, re.S)
         if m:
             ty, tr, meth = base_name(m.group(1)), base_name(m.group(2)), m.group(3)
-            cands = [b for b in self.by_last.get(meth, []) if b.impl and b.impl[0] == tr and b.impl[1] == ty]
+            cands = [b for b in by_last_map.get(meth, []) if b.impl and b.impl[0] == tr and b.impl[1] == ty]
             if len(cands) == 1:
                 return cands[0]
             if self_type:
-                cands = [b for b in self.by_last.get(meth, []) if b.impl and b.impl[0] == tr and b.impl[1] == self_type]
+                cands = [b for b in by_last_map.get(meth, []) if b.impl and b.impl[0] == tr and b.impl[1] == self_type]
                 if len(cands) == 1:
                     return cands[0]
             return None
         sp = strip_generics(p)
         segs = sp.split("::")
         meth = segs[-1]
-        cands = [b for b in self.by_last.get(meth, []) if b.kind == "fn"]
+        cands = [b for b in by_last_map.get(meth, []) if b.kind == "fn"]
         if len(segs) >= 2:
             ty = segs[-2]
             c1 = [b for b in cands if b.impl and b.impl[1] == ty and b.impl[0] is None]
